@@ -10,6 +10,7 @@ from ..core import Outcome
 from ..kit import transport as TR
 from ..kit import sched as S
 from ..kit import protokit
+from ..kit import stackkit
 from ..ref import codec as R
 from hypothesis import strategies as st
 
@@ -95,8 +96,145 @@ def build(case):
     return rig
 
 
+class _AsyncDispatcher(object):
+    """dispatcher double in the style of the default (asyncore) dispatcher: connect() returns at once, the outcome of the connection
+    attempt and everything else is reported later by the event loop - here: when the history says so"""
+    made = []
+
+    def __init__(self, callbacks):
+        self.cb = callbacks
+        self.state = "new"       # new -> pending -> up -> closed
+        self.written = []
+        self.written_while_not_up = 0
+        _AsyncDispatcher.made.append(self)
+
+    def connect(self, host):
+        self.state = "pending"
+        self.cb.onConnecting()
+
+    def disconnect(self):
+        if self.state in ("pending", "up"):
+            self.state = "closed"
+            self.cb.onDisconnected()
+
+    def sendData(self, data):
+        if self.state != "up":
+            self.written_while_not_up += 1
+            return
+        self.written.append(bytes(data))
+
+
+class _NetTop(YowLayer):
+    def __init__(self):
+        super(_NetTop, self).__init__()
+        self.events = []
+        self.got = []
+
+    def onEvent(self, ev):
+        self.events.append(ev.getName().split(".")[-1])
+        return False
+
+    def receive(self, data):
+        self.got.append(bytes(data))
+
+    def send(self, data):
+        self.toLower(data)
+
+
+def _run_net_async(case, out):
+    """the network layer alone over an asynchronous dispatcher double: histories in which 'connect request' and 'connected' are
+    separate events, so that further requests can arrive while a connection is still being established"""
+    import yowsup.layers.network.layer as netmod
+    from yowsup.stacks import YowStack
+    saved = (netmod.AsyncoreConnectionDispatcher, netmod.SocketConnectionDispatcher)
+    netmod.AsyncoreConnectionDispatcher = netmod.SocketConnectionDispatcher = _AsyncDispatcher
+    _AsyncDispatcher.made = []
+    try:
+        stack = stackkit.new_stack_class()((YowNetworkLayer, _NetTop), reversed=False, props={YowNetworkLayer.PROP_ENDPOINT: ("e1.whatsapp.net", 443)})
+        top = stack.getLayer(1)
+        out.label("net_async")
+        n_data = 0
+        timeline = []
+        seen_events = [0]
+        for step, op in enumerate(case["ops"]):
+            kind = op[0]
+            live = [d for d in _AsyncDispatcher.made if d.state in ("pending", "up")]
+            pending = [d for d in live if d.state == "pending"]
+            ups = [d for d in live if d.state == "up"]
+            if kind == "connect_request":
+                if live:
+                    out.label("connect_request_while_" + ("up" if ups else "being_established"))
+                timeline.append("request")
+                stack.broadcastEvent(YowLayerEvent(YowNetworkLayer.EVENT_STATE_CONNECT))
+            elif kind == "established" and pending:
+                d = pending[op[1] % len(pending)]
+                d.state = "up"
+                d.cb.onConnected()
+            elif kind == "refused" and pending:
+                d = pending[op[1] % len(pending)]
+                d.state = "closed"
+                d.cb.onConnectionError(IOError("connection refused"))
+            elif kind == "peer_close" and ups:
+                d = ups[op[1] % len(ups)]
+                d.state = "closed"
+                d.cb.onDisconnected()
+            elif kind == "disconnect_request" and live:
+                stack.broadcastEvent(YowLayerEvent(YowNetworkLayer.EVENT_STATE_DISCONNECT, reason="requested"))
+            elif kind == "data" and ups:
+                n_data += 1
+                ups[op[1] % len(ups)].cb.onRecvData(b"in-%d" % n_data)
+            elif kind == "send":
+                top.send(b"out-%d" % step)
+            elif kind == "loop":
+                stackkit.drain_detached(stack)
+            else:
+                continue
+            live = [d for d in _AsyncDispatcher.made if d.state in ("pending", "up")]
+            if len(live) > 1:
+                out.label("two_sockets_open")
+            # what the application sees, in order: announcements and data
+            if kind == "data":
+                timeline.append("data")
+            stackkit.drain_detached(stack)
+            for e in top.events[seen_events[0]:]:
+                if e in ("connected", "disconnected"):
+                    timeline.append(e)
+            seen_events[0] = len(top.events)
+        stackkit.drain_detached(stack)
+        # announcements alternate (each connection is announced up once and down once), and nothing arrives from a connection
+        # that was never announced or has been announced as down
+        state = "down"
+        for i, e in enumerate(timeline):
+            if e == "connected":
+                if state == "up":
+                    out.fail("lifecycle", "net_async:connected_announced_twice_in_a_row", {"timeline": timeline, "history": case["ops"]})
+                    return out
+                state = "up"
+            elif e == "request":
+                if state == "down":
+                    state = "connecting"
+            elif e == "disconnected":
+                # (a failed or abandoned attempt is announced as down too)
+                if state == "down":
+                    out.fail("lifecycle", "net_async:disconnected_announced_without_a_connection", {"timeline": timeline, "history": case["ops"]})
+                    return out
+                state = "down"
+            elif e == "data" and state != "up":
+                out.fail("lifecycle", "net_async:data_delivered_while_announced_down", {"timeline": timeline, "history": case["ops"]})
+                return out
+        if any(d.written_while_not_up for d in _AsyncDispatcher.made):
+            out.fail("lifecycle", "net_async:written_to_a_connection_that_is_not_up", {"history": case["ops"]})
+            return out
+        out.info = {"nt": any(l.startswith("connect_request_while") for l in out.labels)}
+        return out
+    finally:
+        netmod.AsyncoreConnectionDispatcher, netmod.SocketConnectionDispatcher = saved
+
+
 def run_case(case):
     out = Outcome()
+    if case.get("sub") == "net_async":
+        return _run_net_async(case, out)
     rig = build(case)
     try:
         return _run(case, out, rig)
@@ -694,13 +832,33 @@ def _enum_basic():
     yield dict(base, late=[True, True], ops=[["connect"], ["close_and_send"], ["loop"], ["connect"], ["success"], ["stream_error", "ack", False], ["success"]])
 
 
+def net_async_strategy():
+    sel = st.integers(0, 2)
+    op = st.one_of(st.just(["connect_request"]), st.just(["connect_request"]), st.tuples(st.just("established"), sel).map(list),
+                   st.tuples(st.just("established"), sel).map(list), st.tuples(st.just("refused"), sel).map(list),
+                   st.tuples(st.just("peer_close"), sel).map(list), st.just(["disconnect_request"]), st.tuples(st.just("data"), sel).map(list),
+                   st.just(["send"]), st.just(["loop"]))
+    return st.lists(op, min_size=2, max_size=14).map(lambda ops: {"sub": "net_async", "ops": [["connect_request"]] + ops})
+
+
+def _enum_net_async():
+    yield {"sub": "net_async", "ops": [["connect_request"], ["connect_request"], ["established", 0], ["established", 0], ["data", 0], ["loop"]]}
+    yield {"sub": "net_async", "ops": [["connect_request"], ["established", 0], ["connect_request"], ["data", 0], ["peer_close", 0], ["loop"],
+                                       ["connect_request"], ["established", 0], ["send"]]}
+    yield {"sub": "net_async", "ops": [["connect_request"], ["refused", 0], ["loop"], ["connect_request"], ["connect_request"], ["established", 0],
+                                       ["disconnect_request"], ["loop"], ["connect_request"], ["established", 0], ["data", 0]]}
+    yield {"sub": "net_async", "ops": [["connect_request"], ["disconnect_request"], ["connect_request"], ["established", 0], ["established", 0],
+                                       ["data", 0], ["data", 1]]}
+
+
 def plan(tier):
     quick = tier == "quick"
     return {
         "shards": 16,
-        "enumerations": [("basic_histories", _enum_basic)],
+        "enumerations": [("basic_histories", _enum_basic), ("net_async_basic", _enum_net_async)],
         "strategies": [("histories", case_strategy(), 90 if quick else 2400),
-                       ("keepalive_histories", case_strategy(keepalive_ops_strategy()), 40 if quick else 1200)],
+                       ("keepalive_histories", case_strategy(keepalive_ops_strategy()), 40 if quick else 1200),
+                       ("net_async", net_async_strategy(), 150 if quick else 6000)],
         "shrink": "ddmin",
         "budget_s": 170 if quick else 1800,
     }
